@@ -2300,6 +2300,67 @@ class Generator:
             {'op': 'master_cycle'}])
         return {'op': 'app_delete', 'name': low_name}
 
+    def g_identity_evict_restore(self, world, staged=False):
+        """A member of an identity group that has a spare identity is evicted
+        in vain (an instance of its own application that fits nowhere arrives
+        ahead of it) and put back where it was, twice; then the oversized
+        instance leaves, one more member arrives, and the master fails over:
+        every member must come back with the identity it had."""
+        master = world.master
+        if master is None:
+            return None
+        holders = {}
+        for name in sorted(master.cell.apps):
+            app = master.cell.apps[name]
+            if app.identity_group and app.identity is not None and \
+                    app.server and 0 < app.priority < 100:
+                holders.setdefault(app.identity_group, []).append(name)
+        if not holders:
+            if staged or not self.config['group_names']:
+                return None
+            group = self.rng.choice(self.config['group_names'])
+            proid = self.rng.choice(self.config['proids'])
+            manifest = {'memory': '256M', 'cpu': '10%', 'disk': '256M',
+                        'affinity': '%s.db' % proid, 'identity_group': group,
+                        'priority': 10}
+            limits = self.config['aff_limits'].get(manifest['affinity'])
+            if limits:
+                manifest['affinity_limits'] = limits
+            self.follow.extend([
+                {'op': 'app_create', 'app_id': '%s.db' % proid,
+                 'manifest': manifest, 'count': 2},
+                {'op': 'drain'}, {'op': 'master_cycle'},
+                {'gen': 'identity_evict_restore'}])
+            return {'op': 'group', 'name': group, 'count': 3}
+        group = self.rng.choice(sorted(holders))
+        member = self.rng.choice(holders[group])
+        appid = member.split('#')[0]
+        man = dict(world._zk_obj(z.path.scheduled(member)) or {})
+        giant = dict(man, memory='999999M', priority=100)
+        giant.pop('identity_group', None)
+        extra = dict(man)
+        self.follow.extend([
+            {'op': 'app_create', 'app_id': appid, 'manifest': giant,
+             'count': 1},
+            {'op': 'drain'}, {'op': 'master_cycle'},
+            {'op': 'app_prio', 'name': member,
+             'prio': master.cell.apps[member].priority},
+            {'op': 'drain'}, {'op': 'master_cycle'},
+            {'gen': 'drop_giants'},
+            {'op': 'app_create', 'app_id': appid, 'manifest': extra,
+             'count': 1},
+            {'op': 'drain'}, {'op': 'master_cycle'}, {'op': 'restart'},
+            {'op': 'drain'}, {'op': 'master_cycle'}])
+        return {'op': 'group', 'name': group,
+                'count': len(holders[group]) + 2}
+
+    def g_drop_giants(self, world, staged=False):
+        for name in self._scheduled(world):
+            man = world._zk_obj(z.path.scheduled(name)) or {}
+            if man.get('memory') == '999999M':
+                return {'op': 'app_delete', 'name': name}
+        return None
+
     def g_relimit_generation(self, world):
         """Every instance of an affinity is deleted, the affinity's limits
         are redeclared (often the same values on other levels), and a new
@@ -2415,6 +2476,7 @@ OP_WEIGHTS = [
     ('undefined_server_event', 4), ('reparent_to_undefined_rack', 2),
     ('detach_then_touch_server', 5), ('reparent_loaded', 5),
     ('identity_handover_crash', 3), ('relimit_generation', 5),
+    ('identity_evict_restore', 3), ('drop_giants', 0),
 ]
 
 
